@@ -367,4 +367,29 @@ def expectedEvents (dbg : Debugger) : List (Breakpoint × σ) → List (DebugEva
     (if hits dbg b && !(lastMatch dbg.lastState b) then [(DebugEval.breakpoint b, s)] else [])
     ++ laterEvents dbg rest
 
+/-! ### where the Rust text may mention the debugger (compared with `Gen/DebuggerRefs.lean` in Props/C32)
+
+Every mention listed here was read and is accounted for by this model:
+* interpreter.rs: the field, and the read-only accessor `debugger()`;
+* constructors.rs: `Debugger::default()`;
+* interpreter/debug.rs: the forwarding setters, `eval_debugger_state`, `debugger_set_last_state`, `debugger_last_state`;
+* diff/storage.rs: moves the field unchanged between interpreter type conversions;
+* executors/debug.rs: `resume`; executors/instruction.rs: the gate; executors/main.rs: `run_program`'s event arm;
+* state.rs: `mod debugger; pub use debugger::Debugger`.
+`DebugEvent`: its definition, `should_continue`, `From<DebugEval>` in state.rs, and the two loops' arms. -/
+def expectedDebuggerMentions : List (String × Nat) := [
+  ("fuel-vm/src/interpreter.rs", 3),
+  ("fuel-vm/src/interpreter/constructors.rs", 1),
+  ("fuel-vm/src/interpreter/debug.rs", 15),
+  ("fuel-vm/src/interpreter/diff/storage.rs", 4),
+  ("fuel-vm/src/interpreter/executors/debug.rs", 2),
+  ("fuel-vm/src/interpreter/executors/instruction.rs", 2),
+  ("fuel-vm/src/interpreter/executors/main.rs", 1),
+  ("fuel-vm/src/state.rs", 2)]
+
+def expectedDebugEventMentions : List (String × Nat) := [
+  ("fuel-vm/src/interpreter/executors/main.rs", 1),
+  ("fuel-vm/src/interpreter/executors/predicate.rs", 1),
+  ("fuel-vm/src/state.rs", 3)]
+
 end FuelVerif.Debug
